@@ -18,6 +18,7 @@ import ast
 
 from ..engine.model import AnalysisError, src, walk_own
 from ..engine.flow import Flow
+from ..engine.inline import Inliner, norm_text
 from ..engine.typestate import EventDomain
 from .spstate import SPM
 
@@ -39,24 +40,56 @@ def check(model, rep):
         raise AnalysisError('inverseJacobian: leg loop not recognised')
     lp = loops[0]
     i = lp.target.id
-    a = {src(n.targets[0]).replace(' ', ''): src(n.value).replace(' ', '') for n in lp.body if isinstance(n, ast.Assign)}
+    il = Inliner(ij)
+    R = {i: 'I'}
     rep.ob('R11.1', ij, 'six legs', src(lp.iter).replace(' ', '') == 'range(6)', 'loop ranges over %s' % src(lp.iter), line=lp.lineno)
-    rep.ob('R11.1', ij, 'n_i = Normalize(top_i - bottom_i)', a.get('ni') == 'fmr.Normalize(self._top_joints_space[:,%s]-self._bottom_joints_space[:,%s])' % (i, i),
-           'leg direction is %s' % a.get('ni'), line=lp.lineno)
-    rep.ob('R11.1', ij, 'q_i = bottom joint i', a.get('qi') == 'self._bottom_joints_space[:,%s]' % i, 'moment arm is %s' % a.get('qi'), line=lp.lineno)
-    rep.ob('R11.1', ij, 'column = [q x n ; n]', a.get('col') == 'np.hstack((np.cross(qi,ni),ni))', 'Plucker coordinates are %s' % a.get('col'), line=lp.lineno)
-    rep.ob('R11.1', ij, 'stored as column i of the transpose', a.get('inverse_jacobian_transpose[:,%s]' % i) == 'col',
-           'column store is %s' % {k: v for k, v in a.items() if 'transpose' in k}, line=lp.lineno)
-    post = {src(n.targets[0]): src(n.value).replace(' ', '') for n in ij.body() if isinstance(n, ast.Assign) and n.lineno > lp.end_lineno}
     rets = [n for n in walk_own(ij.node) if isinstance(n, ast.Return)]
-    rep.ob('R11.1', ij, 'returns the transpose (rows = legs)', post.get('inverse_jacobian') == 'inverse_jacobian_transpose.T' and len(rets) == 1 and src(rets[0].value) == 'inverse_jacobian',
-           'returned matrix is %s' % (src(rets[0].value) if rets else '?'))
-    # geometry evaluated at the requested poses: IK(requested) before the loop, IK(saved) after
+    colst = [n for n in lp.body if isinstance(n, ast.Assign) and isinstance(n.targets[0], ast.Subscript) and isinstance(n.targets[0].value, ast.Name)]
+    N_TXT = 'fmr.Normalize(self._top_joints_space[:,I]-self._bottom_joints_space[:,I])'
+    Q_TXT = 'self._bottom_joints_space[:,I]'
+    n_got = q_got = col_got = '?'
+    mat = None
+    if len(colst) == 1:
+        mat = colst[0].targets[0].value.id
+        vt = il.tree(colst[0].value, roles=R)
+        col_got = il.text(colst[0].value, roles=R)
+        if isinstance(vt, ast.Call) and norm_text(vt.func) in ('np.hstack', 'np.concatenate') and len(vt.args) == 1 and isinstance(vt.args[0], (ast.Tuple, ast.List)) \
+                and len(vt.args[0].elts) == 2:
+            mom, n_got = vt.args[0].elts[0], norm_text(vt.args[0].elts[1])
+            if isinstance(mom, ast.Call) and norm_text(mom.func) == 'np.cross' and len(mom.args) == 2:
+                q_got = norm_text(mom.args[0])
+                col_ok = norm_text(mom.args[1]) == n_got
+            else:
+                col_ok = False
+        else:
+            col_ok = False
+    else:
+        col_ok = False
+    rep.ob('R11.1', ij, 'n_i = Normalize(top_i - bottom_i)', n_got == N_TXT, 'leg direction is %s' % n_got, line=lp.lineno)
+    rep.ob('R11.1', ij, 'q_i = bottom joint i', q_got == Q_TXT, 'moment arm is %s' % q_got, line=lp.lineno)
+    rep.ob('R11.1', ij, 'column = [q x n ; n]', col_ok, 'Plucker coordinates are %s' % col_got[:200], line=lp.lineno)
+    rep.ob('R11.1', ij, 'stored as column i of the transpose', len(colst) == 1 and norm_text(colst[0].targets[0].slice).strip('()') == ':,%s' % i
+           and [norm_text(d) for d in il.defs(mat)] == ['np.zeros((6,6))'],
+           'column store is %s' % [src(n.targets[0]) for n in colst], line=lp.lineno)
+    ret_t = il.text(rets[0].value, roles={mat: 'M'} if mat else None) if rets else '?'
+    rep.ob('R11.1', ij, 'returns the transpose (rows = legs)', len(rets) == 1 and ret_t in ('M.T', 'M.transpose()', 'np.transpose(M)'), 'returned matrix is %s' % ret_t)
+    # geometry evaluated at the requested poses: IK(requested) before the loop, IK(saved) after; the saved poses are read before the first IK
     iks = sorted((c for c in walk_own(ij.node) if isinstance(c, ast.Call) and src(c.func) == 'self.IK'), key=lambda c: c.lineno)
-    ok = len(iks) == 2 and iks[0].lineno < lp.lineno < iks[1].lineno and 'old_top_plate_transform' in src(iks[1]) and 'old_bottom_plate_transform' in src(iks[1])
-    saves = {src(n.targets[0]): src(n.value) for n in ij.body() if isinstance(n, ast.Assign) and n.lineno < lp.lineno}
-    ok = ok and saves.get('old_bottom_plate_transform') == 'self.getBottomT()' and saves.get('old_top_plate_transform') == 'self.getTopT()'
-    rep.ob('R11.1', ij, 'poses saved, IK(requested) ... rows ... IK(saved)', ok, 'save / evaluate / restore bracket not recognised')
+    ok = len(iks) == 2 and iks[0].lineno < lp.lineno < iks[1].lineno
+    why = 'two IK calls bracketing the row loop expected, found %d' % len(iks)
+    if ok:
+        kw = {k.arg: k.value for k in iks[1].keywords}
+        for arg, getter in (('top_plate_pos', 'self.getTopT()'), ('bottom_plate_pos', 'self.getBottomT()')):
+            v = kw.get(arg)
+            if not (isinstance(v, ast.Name) and il.single(v.id) is not None and norm_text(il.single(v.id)) == getter
+                    and il.bind[v.id][0][2].lineno < iks[0].lineno):
+                ok = False
+                why = 'the pose restored as %s is not the value of %s read before the geometry was moved (%s)' % (arg, getter, src(v) if v is not None else 'missing')
+        kw0 = {k.arg: norm_text(k.value) for k in iks[0].keywords}
+        if ok and not (kw0.get('top_plate_pos') == 'top_plate_pos' and kw0.get('bottom_plate_pos') == 'bottom_plate_pos' and {'top_plate_pos', 'bottom_plate_pos'} <= set(ij.params)):
+            ok = False
+            why = 'the geometry is not evaluated at the requested poses: IK(%s)' % kw0
+    rep.ob('R11.1', ij, 'poses saved, IK(requested) ... rows ... IK(saved)', ok, 'save / evaluate / restore bracket not recognised: ' + why)
 
     # ---------------------------------------------------------------- R11.2
     rep.rule('R11.2', 'sumActuatorWrenches: one wrench per leg with point, direction and magnitude of the same leg')
@@ -66,14 +99,25 @@ def check(model, rep):
     if len(loops) == 1:
         lp = loops[0]
         i = lp.target.id
-        a = {src(n.targets[0]).replace(' ', ''): src(n.value).replace(' ', '') for n in lp.body if isinstance(n, ast.Assign)}
-        aug = [n for n in lp.body if isinstance(n, ast.AugAssign)]
-        uv = a.get('unit_vector')
-        ok_dir = uv in ('fmr.Normalize(self._bottom_joints_space[:,%s]-self._top_joints_space[:,%s])' % (i, i),
-                        'fmr.Normalize(self._top_joints_space[:,%s]-self._bottom_joints_space[:,%s])' % (i, i))
-        ok_w = len(aug) == 1 and src(aug[0].target) == 'wrench' and src(aug[0].value).replace(' ', '') in (
-            'fsr.makeWrench(self._top_joints_space[:,%s],float(forces[%s]),unit_vector)' % (i, i),
-            'fsr.makeWrench(self._bottom_joints_space[:,%s],float(forces[%s]),unit_vector)' % (i, i))
+        ilw = Inliner(sw)
+        R = {i: 'I'}
+        aug = [n for n in lp.body if isinstance(n, ast.AugAssign)] + \
+              [n for n in lp.body if isinstance(n, ast.Assign) and isinstance(n.value, ast.BinOp) and isinstance(n.value.op, ast.Add) and src(n.targets[0]) == src(n.value.left)]
+        rets_w = [n for n in walk_own(sw.node) if isinstance(n, ast.Return) and n.value is not None]
+        accn = src(rets_w[0].value) if len(rets_w) == 1 else None
+        term = None
+        if len(aug) == 1:
+            term = aug[0].value if isinstance(aug[0], ast.AugAssign) else aug[0].value.right
+        tt = ilw.tree(term, roles=R) if term is not None else None
+        uv = '?'
+        ok_dir = ok_w = False
+        fp = sw.params[1]
+        if isinstance(tt, ast.Call) and norm_text(tt.func) == 'fsr.makeWrench' and len(tt.args) == 3:
+            pt, mag, uv = (norm_text(x) for x in tt.args)
+            ok_dir = uv in ('fmr.Normalize(self._bottom_joints_space[:,I]-self._top_joints_space[:,I])',
+                            'fmr.Normalize(self._top_joints_space[:,I]-self._bottom_joints_space[:,I])')
+            tgt = src(aug[0].target if isinstance(aug[0], ast.AugAssign) else aug[0].targets[0])
+            ok_w = tgt == accn and pt in ('self._top_joints_space[:,I]', 'self._bottom_joints_space[:,I]') and mag in ('float(%s[I])' % fp, '%s[I]' % fp)
         rep.ob('R11.2', sw, 'direction along leg i', ok_dir, 'direction is %s' % uv, line=lp.lineno)
         rep.ob('R11.2', sw, 'wrench += makeWrench(joint of leg i, force i, direction i)', ok_w, 'accumulation is %s' % (src(aug[0]) if aug else '?'), line=lp.lineno)
         rep.ob('R11.2', sw, 'six legs', src(lp.iter).replace(' ', '') == 'range(6)', 'loop ranges over %s' % src(lp.iter), line=lp.lineno)
@@ -89,12 +133,12 @@ def check(model, rep):
         """marks = (frozenset of contributions added to `wrench` so far, solved?)"""
 
         def _contrib(s, e):
-            e = src(e).replace(' ', '')
+            e = ilc.text(e)
             if e == 'fsr.makeWrench(self.getTopT(),self._top_plate_mass,self.grav)':
                 return 'top-plate@top'
-            if e == "fsr.makeWrench(self.getActuatorLoc(i,'t'),self._act_shaft_mass,self.grav)":
+            if e == "fsr.makeWrench(self.getActuatorLoc(_0,'t'),self._act_shaft_mass,self.grav)":
                 return 'shaft_i@cg'
-            if e == "fsr.makeWrench(self.getActuatorLoc(i,'b'),self._act_motor_mass,self.grav)":
+            if e == "fsr.makeWrench(self.getActuatorLoc(_0,'b'),self._act_motor_mass,self.grav)":
                 return 'motor_i@cg'
             if e == 'fsr.makeWrench(self.getBottomT(),self._bottom_plate_mass,self.grav)':
                 return 'bottom-plate@bottom'
@@ -102,10 +146,10 @@ def check(model, rep):
 
         def on_store(s, target, value, stmt, state):
             (got, solved), consts = state
-            if isinstance(target, ast.Name) and target.id == 'wrench':
+            if isinstance(target, ast.Name) and target.id == WR:
                 if isinstance(stmt, ast.AugAssign):
                     got = got | {(s._contrib(stmt.value), s.in_loop)}
-                elif value is not None and isinstance(value, ast.BinOp) and isinstance(value.op, ast.Add) and src(value.left) == 'wrench':
+                elif value is not None and isinstance(value, ast.BinOp) and isinstance(value.op, ast.Add) and src(value.left) == WR:
                     got = got | {(s._contrib(value.right), s.in_loop)}
                 elif value is not None and src(value) == cm.params[1] + '.copy()':
                     got = frozenset({('applied', None)})
@@ -124,11 +168,14 @@ def check(model, rep):
 
         def on_call(s, call, state):
             (got, solved), consts = state
-            if src(call.func) == 'self.staticForces' and call.args and src(call.args[0]) == 'wrench':
+            if src(call.func) == 'self.staticForces' and call.args and src(call.args[0]) == WR:
                 seen.append(got)
                 solved = True
             return (((got, solved), consts),)
     seen = []
+    ilc = Inliner(cm)
+    sf = [c for c in walk_own(cm.node) if isinstance(c, ast.Call) and src(c.func) == 'self.staticForces' and c.args and isinstance(c.args[0], ast.Name)]
+    WR = sf[0].args[0].id if sf else '?'
     exits = Flow(Acc()).run(cm.body(), {((frozenset(), False), frozenset())})
     want = {('applied', None), ('top-plate@top', None), ('shaft_i@cg', 'range(6)')}
     ok = bool(seen) and all({(c, l) for (c, l) in g} == want for g in seen)
@@ -141,7 +188,8 @@ def check(model, rep):
     rep.ob('R11.3', cm, 'motor and bottom-plate weights only in the returned total', {'motor_i@cg', 'bottom-plate@bottom'} <= after and
            not any(c.startswith('other') for c in after), 'returned total accumulates %s' % sorted(after))
     rets = [n for n in walk_own(cm.node) if isinstance(n, ast.Return)]
-    rep.ob('R11.3', cm, 'returns (leg forces, total wrench)', len(rets) == 1 and src(rets[0].value).replace(' ', '').strip('()') == 'tau,wrench', 'returns %s' % (src(rets[0].value) if rets else '?'))
+    got_r = ilc.text(rets[0].value, roles={WR: 'W'}) if len(rets) == 1 else '?'
+    rep.ob('R11.3', cm, 'returns (leg forces, total wrench)', got_r.replace('(', '').replace(')', '').startswith('self.staticForcesW,') and got_r.endswith(',W)'), 'returns %s' % got_r)
 
     # ---------------------------------------------------------------- R11.4
     rep.rule('R11.4', 'Robot routing: jacobian() = pinv(inverseJacobian()), statics through jacobian / jacobianBody (C06 table); SP defines inverseJacobian')
